@@ -24,7 +24,7 @@ func init() {
 	register(&prop{
 		id:    "C15",
 		level: "exploration",
-		rule: "PRNG batches of 1-64 messages over pools of 2-8 targets (including a pair that differs only in how address and id split), senders {none, a PID, an equal copy of it, a split-ambiguous pair}, payload types {remote.TestMessage, actor.PID, actor.Ping, cluster.Member, cluster.Activation} and unserialisable payloads {non-proto value, invalid UTF-8 in a proto3 string, nil} at PRNG positions; " +
+		rule: "PRNG batches of 1-64 messages over pools of 2-8 targets (including a pair that differs only in how address and id split), senders {none, a PID, an equal copy of it, a split-ambiguous pair}, payload types {remote.TestMessage, actor.PID, actor.Ping, cluster.Member, cluster.Activation, messages that encode to zero bytes, plain protobuf types without vtproto methods (Empty, StringValue, Duration)}, split into 1-4 envelopes over one connection, and unserialisable payloads {non-proto value, invalid UTF-8 in a proto3 string, nil} at PRNG positions; " +
 			"oracle: delivered list == input list minus the unserialisable items, same order, each at the addressed id, payload proto.Equal, sender equal or absent exactly as given, nothing else delivered, no panic. Non-trivial = the batch mixes >=2 targets or senders, or holds an unserialisable item; distinct by (mode, batch length, pools used, positions of unserialisable items)",
 		assumptions: []string{
 			"internal mode needs the verif-only export file for package remote (supplied through the build overlay); if it no longer compiles against a refactored tree the mode reports itself unavailable and the end-to-end mode alone decides",
